@@ -702,7 +702,11 @@ class Unit:
 
     def __hash__(self) -> int:
         """hash(self)"""
-        return hash(self.symbol)
+        # units of one quantity type with the same scale compare equal, so
+        # they must hash equal
+        if self._equiv is None:
+            return hash(self.symbol)
+        return hash((self._qty_cls, self._equiv))
 
     def __copy__(self) -> Unit:
         """Return self (:class:`Unit` instances are immutable)."""
@@ -1049,7 +1053,8 @@ class QuantityMeta(ClassWithDefinitionMeta):
         cls._converters: List[ConverterT] = []
 
     def _make_unit(cls, symbol: str, name: Optional[str],  # noqa: N805
-                   define_as: Optional[UnitDefT]) -> Unit:
+                   define_as: Optional[UnitDefT],
+                   is_ref_unit: bool = False) -> Unit:
         unit_cls = cls._unit_cls
         unit = object.__new__(unit_cls)
         unit._qty_cls = cls
@@ -1060,6 +1065,9 @@ class QuantityMeta(ClassWithDefinitionMeta):
             assert define_as is None, "Unknown type of Unit definition."
             unit._definition = None
             unit._equiv = None
+        if is_ref_unit:
+            # must be set before the unit gets registered (hash(unit)!)
+            unit._equiv = ONE
         assert symbol, "A symbol must be given for the unit."
         try:
             _SYMBOL_UNIT_MAP[symbol]
@@ -1078,9 +1086,8 @@ class QuantityMeta(ClassWithDefinitionMeta):
 
     def _make_ref_unit(cls, symbol: str, name: Optional[str],  # noqa: N805
                        define_as: Optional[UnitDefT]) -> Unit:
-        unit = cls._make_unit(symbol, name, define_as=define_as)
-        unit._equiv = ONE
-        return unit
+        return cls._make_unit(symbol, name, define_as=define_as,
+                              is_ref_unit=True)
 
     @property
     def ref_unit(cls) -> Optional[Unit]:  # noqa: N805
@@ -1537,7 +1544,13 @@ class Quantity(metaclass=QuantityMeta):
 
     def __hash__(self) -> int:
         """hash(self)"""
-        return hash((self.amount, self.unit))
+        # quantities equal across units of their type (1 km == 1000 m) must
+        # hash equal: hash the amount in terms of the reference unit
+        # noinspection PyProtectedMember
+        equiv = self.unit._equiv
+        if equiv is None:
+            return hash((self.amount, self.unit))
+        return hash((self.__class__, self.amount * equiv))
 
     def __abs__(self: Q) -> Q:
         """abs(self) -> self.Quantity(abs(self.amount), self.unit)"""
